@@ -27,22 +27,37 @@ Section R.
     0 <= pos /\ c_n0 c <= pos / TL c <= c_n0 c + 3 /\
     (pos / TL c <= c_n0 c + 2 -> bnd gh ((pos / TL c) mod 3) (pos mod TL c)).
 
-  Definition flav_ok (f : flavour) : bool := match f with FPeek _ _ | FBlock _ => false | _ => true end.
-  Definition vin_poll (pc : vpc) : bool := match pc with VLen | VType | VFlags | VBody | VCommit | VSet => true | _ => false end.
-  Definition von_frame (pc : vpc) : bool := match pc with VType | VFlags | VBody => true | _ => false end.
-  Definition vpc_ok (pc : vpc) : bool :=
-    match pc with VPos | VLen | VType | VFlags | VBody | VCommit | VSet | VDone => true | _ => false end.
+  Definition vin_poll (pc : vpc) : bool := match pc with VPos | VDone => false | _ => true end.
+  Definition von_frame (pc : vpc) : bool := match pc with VType | VFlags | VBody | VFlags2 | VBType => true | _ => false end.
+  Definition is_block (f : flavour) : bool := match f with FBlock _ => true | _ => false end.
 
+  (* inside a poll: the partition is the one of the generation the position is in; the offsets the flavour works with are frame
+     boundaries; the position the flavour will publish is the generation's start plus such an offset *)
   Definition pollf (gh : xghost) (l : vlocal) : Prop :=
-    exists g, c_n0 c <= g <= c_n0 c + 2 /\ v_idx l = g mod 3 /\ v_pos l = g * TL c + v_toff0 l /\
-              bnd gh (v_idx l) (v_toff0 l) /\ bnd gh (v_idx l) (v_off l).
+    exists g, c_n0 c <= g <= c_n0 c + 2 /\ v_idx l = g mod 3 /\
+              bnd gh (v_idx l) (v_toff0 l) /\ bnd gh (v_idx l) (v_off l) /\
+              (is_peek (v_flav l) = false -> v_pos l = g * TL c + v_toff0 l) /\
+              (is_peek (v_flav l) = true -> v_ppos l = g * TL c + v_toff0 l /\
+                                            exists o_r, v_rpos l = g * TL c + o_r /\ bnd gh (v_idx l) o_r) /\
+              (is_block (v_flav l) = true -> v_p0 l = v_toff0 l).
   Definition framef (gh : xghost) (l : vlocal) : Prop :=
     exists sl, lookup (v_foff l) (xg_fr gh (v_idx l)) = Some sl /\ s_len sl = v_flen l /\
-               bnd gh (v_idx l) (v_foff l) /\ v_off l = v_foff l + align (v_flen l) FA.
+               bnd gh (v_idx l) (v_foff l) /\
+               v_off l = (if match v_pc l with VBType => true | _ => false end then v_foff l else v_foff l + align (v_flen l) FA).
+
+  (* which program counters belong to which flavour *)
+  Definition pc_flav (pc : vpc) (f : flavour) : bool :=
+    match pc with
+    | VVal | VFlags2 | VVal2 | VSetPos => is_peek f
+    | VBLen | VBType | VBTid | VBRead | VBSet => is_block f
+    | VCommit => is_ctrl f
+    | VSet => negb (is_peek f) && negb (is_block f)
+    | VLen | VType | VFlags | VBody => negb (is_block f)
+    | _ => true
+    end.
 
   Record VInv (gh : xghost) (l : vlocal) : Prop := {
-    vi_pc : vpc_ok (v_pc l) = true;
-    vi_fl : forallb flav_ok (v_todo l) = true;
+    vi_pf : pc_flav (v_pc l) (v_flav l) = true;
     vi_poll : vin_poll (v_pc l) = true -> pollf gh l;
     vi_frame : von_frame (v_pc l) = true -> framef gh l;
     vi_flags : v_pc l = VBody -> exists sl, lookup (v_foff l) (xg_fr gh (v_idx l)) = Some sl /\ v_flags l = s_flags sl;
@@ -74,8 +89,10 @@ Section R.
   Proof. cbn [xg_add xg_fr]. destruct (p =? q) eqn:E; [|auto]. assert (p = q) as -> by lia. apply lookup_app_some. Qed.
 
   Lemma VInv_add gh l q x sl : VInv gh l -> VInv (xg_add gh q x sl) l.
-  Proof. intros [V1 V2 V3 V4 V5 V6]. constructor; try assumption.
-    - intros H. destruct (V3 H) as (g & G1 & G2 & G3 & G4 & G5). exists g. repeat (split; [assumption|]). split; apply bnd_add; assumption.
+  Proof. intros [V1 V3 V4 V5 V6]. constructor; try assumption.
+    - intros H. destruct (V3 H) as (g & G1 & G2 & G3 & G4 & G5 & G6 & G7). exists g. split; [assumption|]. split; [assumption|].
+      split; [apply bnd_add; assumption|]. split; [apply bnd_add; assumption|]. split; [assumption|]. split; [|assumption].
+      intros X. destruct (G6 X) as (Y1 & o_r & Y2 & Y3). split; [assumption|]. exists o_r. split; [assumption | apply bnd_add; assumption].
     - intros H. destruct (V4 H) as (s0 & F1 & F2 & F3 & F4). exists s0. split; [apply lookup_add; assumption|]. split; [assumption|].
       split; [apply bnd_add; assumption | assumption].
     - intros H. destruct (V5 H) as (s0 & F1 & F2). exists s0. split; [apply lookup_add; assumption | assumption].
